@@ -216,6 +216,11 @@ func (c *cx) matMM(i int) []map[int64]int64 {
 	for k, x := range v.MM {
 		r[k] = Val{T: "M", M: x}.amap()
 	}
+	for _, k := range v.NM {
+		if k < len(r) && len(r[k]) == 0 {
+			r[k] = nil
+		}
+	}
 	r = spare(r, v.X, func(j int) map[int64]int64 { return map[int64]int64{sentinel(j): sentinel(j)} })
 	watch(c, i, "", true, r, sameMapObj, showMapObj)
 	return r
